@@ -135,6 +135,8 @@ def gen_case(ctx, fmt=None):
                                                           ['f_1', 'lquark lquark', 0, 0, True], ['f_1', 'lquark lquark', 0, 1, True],
                                                           ['f_V', 'squark lquark', 0, 0, False]],
                      'want': rng.choice([0, 1, 2, 3, 4])})
+        case['im'] = (case['want'] + case['T']) % 3 == 0
+        case['ens_name'] = 'ens7' if (case['want'] + case['T']) % 4 == 1 else None
         if fmt == 'sfcf_a':
             # the appended-layout reader only finds the FIRST [correlator] block of a file (it raises
             # "Did not find pattern" for later ones: an exception, outside this property) - request those
@@ -338,12 +340,20 @@ def read_and_expect(ctx, case, root, info):
                     want[r] = sorted(sub)
                     fl.append([('data_r%d_n%d' % (r, c)) if lay == 'c' else ('cfg%d' % c) for c in sub])
                 k2['files'] = fl
+            # real or imaginary part, optional alternative ensemble label
+            part = 1 if case.get('im') else 0
+            if case.get('im'):
+                k2['im'] = True
+            ens = 'data_'
+            if case.get('ens_name'):
+                k2['ens_name'] = case['ens_name']
+                ens = case['ens_name']
             res = sfin.read_sfcf(os.path.join(root, 'data'), 'data', nm, quarks=quarks, wf=wf, wf2=wf2, version=ver, corr_type='bb' if bb else 'bi', **k2)
             e = info['exp'][(nm, wf, wf2)]
             T = 1 if bb else case['T']
             for t in range(T):
-                exp = {'data_|r%d' % r: {c: e[r][c][t][0] for c in want[r]} for r in rs}
-                out.append(('sfcf %s %s wf=%d wf2=%d t=%d' % (lay, nm, wf, wf2, t), tab(res[t]), exp))
+                exp = {'%s|r%d' % (ens, r): {c: e[r][c][t][part] for c in want[r]} for r in rs}
+                out.append(('sfcf %s %s wf=%d wf2=%d t=%d%s' % (lay, nm, wf, wf2, t, ' im' if part else ''), tab(res[t]), exp))
     return out
 
 
